@@ -68,8 +68,17 @@ def run(ctx):
                         r = L.rng
                         unb = r[2][1] == NONE and r[2][2] == NONE
                         if L.page is not None or not unb:
-                            ctx.ob("R20.1", "%s::query/%s (listing not in the table)" % (crate, variant), False,
-                                   detail="paginated listing %s is not covered by the listing table: add it" % variant)
+                            # a paginated listing the table does not know (a new query): the same rules, with the map, prefix,
+                            # cursor field and order read from the listing itself
+                            key = "%s::query/%s (not in the table)" % (crate, variant)
+                            ispec, item, prob = infer_spec(ctx, p, crate, variant, L)
+                            if prob:
+                                ctx.ob("R20.1", key + "/shape", False, detail="new paginated listing %s: %s" % (variant, prob))
+                            elif L.problem or L.page is None:
+                                ctx.ob("R20.1", key + "/shape", False, detail="new listing %s: %s" % (
+                                    variant, L.problem or "the range is bounded by a cursor but not cut to a page"))
+                            else:
+                                check_listing(ctx, p, key, crate, variant, ispec, L, item=item)
                     continue
                 key = "%s::query/%s" % (crate, variant)
                 if L is None or L.problem or L.page is None:
@@ -95,11 +104,53 @@ def run(ctx):
                    detail="; ".join(o.details), sites=o.sites, sample=o.sample, trivial=o.trivial)
 
 
-def check_listing(ctx, p, key, crate, variant, spec, L):
+def infer_spec(ctx, p, crate, variant, L):
+    """(spec, item, problem) for a listing that is not in LISTINGS: source map, prefix field, cursor field, order and key kind as the
+    listing's own range shows them.  Which map a new listing *should* read cannot be known; everything else is checked."""
+    msgv = ("param", "msg")
+    rng = L.rng
+    src = rng[2][0]
+    prefix = None
+    if src[0] == "const":
+        item = src
+    elif src[0] == "call" and src[1].endswith("::prefix") and src[2] and src[2][0][0] == "const":
+        item = src[2][0]
+        k = src[2][1]
+        fs = [x[3] for x in walk(k) if x[0] == "vfield" and x[1] == msgv and x[2] == variant]
+        if len(set(fs)) != 1:
+            return None, None, "prefix %s is not one field of the query" % show(k)[:120]
+        prefix = fs[0]
+    else:
+        return None, None, "unrecognised range source %s" % show(src)[:120]
+    od = rng[2][3]
+    order = od[2] if od[0] == "variant" else None
+    # the cursor: the query field that feeds a bound on the paths that have one
+    cands = set()
+    for b in (rng[2][1], rng[2][2]):
+        for x in walk(b):
+            if x[0] == "vfield" and x[1] == msgv and x[2] == variant and x[3] != prefix:
+                cands.add(x[3])
+    if not cands:
+        a = ctx.facts.adt(None) if False else None
+        # no cursor on this path: name it from the variant's other paths (start_after / start_before by convention)
+        cands = {"start_after"} if order != "Descending" else {"start_before"}
+    if len(cands) != 1:
+        return None, None, "more than one query field bounds the range: %s" % sorted(cands)
+    cursor = list(cands)[0]
+    kind = "u64"
+    for b in (rng[2][1], rng[2][2]):
+        for x in walk(b):
+            if (x[0] == "variant" and x[2] == "ExclusiveRaw") or (x[0] == "call" and x[1].endswith(("addr_validate", "maybe_addr"))):
+                kind = "addr"
+    return (crate, None, prefix, cursor, order, kind), item, None
+
+
+def check_listing(ctx, p, key, crate, variant, spec, L, item=None):
     rng = L.rng
     ns_crate, ns, prefix, cursor_field, order, kind = spec
-    it = storage_items(ctx.engine, ns_crate)
-    item = it.get(ns)
+    if item is None:
+        it = storage_items(ctx.engine, ns_crate)
+        item = it.get(ns)
     msgv = ("param", "msg")
     # ---- R20.1
     lim = ("vfield", msgv, variant, "limit")
